@@ -1725,6 +1725,10 @@ item_expect(struct item *it)
         default:
                 break;
         }
+        if (it->cipher == IMB_CIPHER_PON_AES_CNTR && (it->hash != IMB_AUTH_PON_CRC_BIP || it->c_off != 8 || it->h_off != 0)) {
+                it->have_ref = 0; /* not an XGEM frame job (only reachable in rejected cells of the suite matrix) */
+                return;
+        }
         if (it->cipher == IMB_CIPHER_PON_AES_CNTR) {
                 uint32_t bip = 0, crc = 0;
                 int rc = ref_pon(ref_aes_enc, &ak, dec, it->iv, img, it->buf_len, it->c_len, &bip, &crc);
